@@ -2,6 +2,7 @@ import GV.Model.JSInt
 import GV.Model.Num64
 import GV.Model.NumScheme
 import GV.Spec.Num
+import GV.Model.NumOpTable
 
 /-! Driver for C06 (topic `num`): answers helper-level and scheme-level operation lines with the Lean model
     (`num <op> …`) or with the `BitVec` specification (`num spec <op> …`). -/
@@ -186,8 +187,20 @@ def spec : List String → String
     | _, _, _ => "bad-op"
   | _ => "bad-op"
 
+/-- the known operator table (GV.Model.NumOpTable), one entry per line: `num optable count`, `num optable <i>` -/
+def optable : List String → String
+  | ["count"] => toString GV.NumOpTable.knownEntries.length
+  | [i] =>
+    match i.toNat? with
+    | some i => match GV.NumOpTable.known[i]? with
+      | some (e, a) => GV.NumOpTable.render e ++ "\t" ++ a
+      | none => "bad-op"
+    | none => "bad-op"
+  | _ => "bad-op"
+
 /-- topic `num` -/
 def handle : List String → String
+  | "optable" :: rest => optable rest
   | "spec" :: rest => spec rest
   | rest => model rest
 
